@@ -182,7 +182,7 @@ def _boolish(e):
         f = e.func
         if isinstance(f, ast.Name) and f.id in ('isinstance', 'any', 'all', 'hasattr', 'callable'):
             return True
-        if isinstance(f, ast.Attribute) and f.attr in ('any', 'all'):
+        if isinstance(f, ast.Attribute) and f.attr in ('any', 'all', 'isnan', 'isinf', 'isfinite', 'issparse'):
             return True
     if isinstance(e, ast.Constant) and isinstance(e.value, bool):
         return True
@@ -274,6 +274,37 @@ class MustFlow:
         if out is None:
             return None
         return _add_clauses(out, clauses(test, truth))
+
+    def local_state(self, root, target, state):
+        """the state in which the sub-expression `target` of `root` is evaluated: operands of and/or
+        and the arms of a conditional expression are only reached when the tests before them came out
+        the right way"""
+        def rec(e, st):
+            if e is target:
+                return st
+            if isinstance(e, ast.BoolOp):
+                cur = st
+                for v in e.values:
+                    r = rec(v, cur)
+                    if r is not None:
+                        return r
+                    cur = self._branch(v, isinstance(e.op, ast.And), cur)
+                return None
+            if isinstance(e, ast.IfExp):
+                r = rec(e.test, st)
+                if r is not None:
+                    return r
+                r = rec(e.body, self._branch(e.test, True, st))
+                if r is not None:
+                    return r
+                return rec(e.orelse, self._branch(e.test, False, st))
+            for c in ast.iter_child_nodes(e):
+                r = rec(c, st)
+                if r is not None:
+                    return r
+            return None
+        out = rec(root, state)
+        return state if out is None else out
 
     def _eval(self, expr, state):
         if expr is None or state is None:
